@@ -5,6 +5,7 @@ import TsRsVerif.Lemmas.MemberLemmas
 import TsRsVerif.Lemmas.MemberbSound
 import TsRsVerif.Props.C12
 import TsRsVerif.Lemmas.TreeSound
+import TsRsVerif.Lemmas.UnfoldCheck
 import TsRsVerif.Model.TsNorm
 /-!
 # C01 — serialized values inhabit the generated TypeScript type
@@ -115,6 +116,19 @@ theorem C01_types_sound (cfg : Cfg) (env : Env) (hF : Tree.fragB cfg env = true)
     (hs : Serde.serTy cfg env fuel t v = some j) (hc : cleanV v = true) (hT : Tree.tyTs cfg env t = some T) :
     Member (Tree.declsOf cfg env) T j :=
   serTy_sound cfg env fuel (fun m hm => all_sound cfg env hF fuel m hm) fuel (by omega) t v j T hs hc hT
+
+/-- **end to end with `#[ts(inline)]`**: `env` is the program WITHOUT its `inline` marks (serde does not see them: what is written
+is the same), `D'` any set of declarations that the executable test accepts as an unfolding of the tree-level declarations of
+`env` — the check runs it on the parsed REAL declarations of the program WITH its marks. Then everything the serde model writes
+inhabits the real declarations as well. -/
+theorem C01_inline_sound (cfg : Cfg) (env : Env) (hF : Tree.fragB cfg env = true) (D' : Decls) (ufuel : Nat)
+    (hw : wsdB (Tree.declsOf cfg env) = true) (hu : declsUnfB (Tree.declsOf cfg env) ufuel (Tree.declsOf cfg env) D' = true)
+    (fuel : Nat) (id : Str) (args : List RTy) (v : RVal) (j : JVal) (it : Item) (targs : List Ts)
+    (hfind : env.find id = some it) (hargs : Builtin.nameTyBL cfg.limit (Tree.nameN env) args = some targs)
+    (hs : Serde.serItem cfg env fuel id args v = some j) (hc : cleanV v = true) :
+    Member D' (.ref (Derive.tsName it) targs) j :=
+  (unfold_same_values (wsdB_sound _ hw) (declsUnfB_sound _ D' ufuel hu) (unf_refl _ _) j).mp
+    (C01_items_sound cfg env hF fuel id args v j it targs hfind hargs hs hc)
 
 /-! ## non-vacuity of the end-to-end theorem: a program in the fragment, a value, its JSON -/
 def exCfg : Cfg := { ops := Case.asciiOps }
